@@ -782,8 +782,7 @@ Proof.
       + unfold ccol, conj_t, tmap, column, tabulate. cbn [shape]. f_equal. rewrite <- Hrows. symmetry. apply nth_map'. exact Hj. }
   assert (Hz : forall r, multi_mode_dot_z Op T (map (fun f => conj_t Op (column Op f r)) fs)
                            (map Z.of_nat (seq 0 (length (map (fun f => conj_t Op (column Op f r)) fs)))) (Some k) false = Ok (g r)).
-  { intros r. rewrite (proj1 (multi_mode_dot_default_modes Op T _ (Some k) false (eq_ind _ (fun n => n <= ndim T) (le_n _) _ (eq_sym (eq_trans (map_length _ fs) Hlen))))).
-    exact (Hparts r). }
+  { intros r. rewrite (proj1 (multi_mode_dot_default_modes Op T _ (Some k) false)). exact (Hparts r). }
   assert (Hmodel : mttkrp_memory Op T w fs k = apply_w Op (match w with None => None | Some w0 => Some (conj_t Op w0) end) (stack_cols Op sk (map g (seq 0 R)))).
   { unfold mttkrp_memory. rewrite Efs. rewrite <- Efs. rewrite Hc0.
     rewrite (collect_map_ok (fun r => multi_mode_dot Op T (map (fun f => conj_t Op (column Op f r)) fs) None (Some k) false) g) by (intros; apply Hparts).
